@@ -7,7 +7,23 @@ HeaderShapes == {[type |-> t, sid |-> s, ts |-> x] : t \in {4, 5, 6, 8, 9, 18, 2
 PairShapes == {[type |-> t, sid |-> 1, ts |-> x] : t \in {8, 9}, x \in TsClasses}
 BidirSizes == {1, 128, 4096}
 
+\* MC with HsOrder = "free": the history variables are left out of the fingerprint, every interleaving is still taken
+NoHistory == <<hsw, hsr, put, took, rdoff, out, inn, wire, sent, got, desync>>
+
+\* GEN with HsOrder = "free": one schedule per class of schedules that differ only in the order of neighbouring
+\* steps of different endpoints that do not see each other (two writes, or two handshake reads): of those, the
+\* client's step comes first.  What a read finds in the transport is the same for the whole class.
+IsWrite(k) == k \in {"W", "m"}
+Canonical == Len(sched) < 2 \/
+  LET x == sched[Len(sched) - 1]
+      y == sched[Len(sched)] IN
+  ~(x.e = "B" /\ y.e = "A" /\ IsWrite(x.k) = IsWrite(y.k))
+\* the session reads are not part of a case (the replayer chooses when to read): take them after the last write only
+ReadsLast == NWrites = MaxWrites \/ \A e \in E : got[e] = <<>>
+
 \* GEN: a finished behaviour is printed once, as the sequence of writes with the writer's
 \* chunk size after each of them (InFollowsOut makes that the reader's size after reading it)
-Emit == Done => PrintT(<<"CASE", ToJson([steps |-> hist])>>)
+\* and the schedule: the handshake calls of both endpoints and the session writes in the order they happened,
+\* with the byte counters of the acting endpoint after each of them
+Emit == Done => PrintT(<<"CASE", ToJson([steps |-> hist, sched |-> sched])>>)
 =============================================================================
